@@ -329,7 +329,16 @@ void ScriptMaster::ExecuteRunning()
         uint64_t i = 0;
         while ((m_CurrentThread = (ScriptThread*)timerList.GetNextElement(i)))
         {
-            m_CurrentThread->Resume();
+            try
+            {
+                m_CurrentThread->Resume();
+            }
+            catch (...)
+            {
+                // a resumed thread was interrupted: keep scheduling the others next time
+                m_CurrentThread = nullptr;
+                throw;
+            }
         }
     }
 }
